@@ -104,6 +104,17 @@ func prelude(t *rapid.T, w *world.World) {
 				world.Action{Kind: world.KBlock, Dt: 2e9},
 				world.Action{Kind: world.KBlock, Chain: "0", Dt: 2e9})
 		}
+		if rapid.IntRange(0, 9).Draw(t, "pestablish") < 8 {
+			// a first validator-set change and its delivery: the consumer adopts the CCV channel
+			w.Agenda = append(w.Agenda, world.Action{Kind: world.KDelegate, Sender: "bob", Val: w.ValOrder[1], Amount: int64(rapid.IntRange(1, 6).Draw(t, "pdel")) * 1_000_000})
+			for i := 0; i < 6; i++ {
+				w.Agenda = append(w.Agenda, world.Action{Kind: world.KBlock, Dt: 2e9})
+			}
+			w.Agenda = append(w.Agenda,
+				world.Action{Kind: world.KRelay, Consumer: "0", Relay: &world.RelaySpec{Op: "recv", Dir: "p2c", K: 3}},
+				world.Action{Kind: world.KBlock, Chain: "0", Dt: 2e9},
+				world.Action{Kind: world.KBlock, Chain: "0", Dt: 2e9})
+		}
 	}
 }
 
@@ -115,7 +126,8 @@ func consumerKeyNames(w *world.World, id string) []string {
 	}
 	var out []string
 	for _, v := range c.Vals.Validators {
-		if n := w.Keys.NameByAddr(v.Address.String()); n != "" {
+		// the safe validator is never made to miss blocks (soundness precondition, see world.SafeVal)
+		if n := w.Keys.NameByAddr(v.Address.String()); n != "" && !resolvesToSafe(w, id, n) {
 			out = append(out, n)
 		}
 	}
@@ -181,6 +193,10 @@ func fStep(prof FProfile) func(t *rapid.T, w *world.World) world.Action {
 				names := consumerKeyNames(w, id)
 				if len(names) > 1 {
 					a.Absent = []string{rapid.SampledFrom(names).Draw(t, "cabsentkey")}
+					// downtime needs consecutive misses: the same validator stays away for a few more blocks
+					for i, n := 0, rapid.IntRange(1, 4).Draw(t, "cabsentrun"); i < n; i++ {
+						w.Agenda = append(w.Agenda, world.Action{Kind: world.KBlock, Chain: id, Dt: int64(rapid.IntRange(1, 4).Draw(t, "cdt2")) * 1e9, Absent: a.Absent})
+					}
 				}
 			}
 			return a
@@ -235,6 +251,17 @@ func fStep(prof FProfile) func(t *rapid.T, w *world.World) world.Action {
 				id := rapid.SampledFrom(f.Order).Draw(t, "tochain")
 				return world.Action{Kind: world.KRelay, Consumer: id, Relay: &world.RelaySpec{Op: "timeout", Dir: rapid.SampledFrom([]string{"p2c", "p2c", "c2p"}).Draw(t, "todir"), K: rapid.IntRange(1, 3).Draw(t, "tok")}}
 			}
+		case "unjail":
+			obs := w.ObserveVals()
+			var jailed []string
+			for _, n := range w.ValOrder {
+				if obs[n].Jailed && !obs[n].Tombstoned && !w.Busy(n) {
+					jailed = append(jailed, n)
+				}
+			}
+			if len(jailed) > 0 {
+				return world.Action{Kind: world.KUnjail, Val: rapid.SampledFrom(jailed).Draw(t, "ujv")}
+			}
 		case "bigdt":
 			return world.Action{Kind: world.KBlock, Dt: int64(rapid.SampledFrom([]int{400, 3000, 40000}).Draw(t, "bigdt")) * 1e9}
 		}
@@ -260,6 +287,13 @@ func genRawPacket(t *rapid.T, w *world.World, id string) world.Action {
 	cur := w.P.PApp.ProviderKeeper.GetValidatorSetUpdateId(w.P.Ctx())
 	vsc := uint64(rapid.IntRange(0, int(cur)+2).Draw(t, "rawvsc"))
 	inf := world.Weighted(t, "rawinf", map[string]int{"downtime": 8, "double_sign": 2})
+	var safeKeys []string
+	for _, kn := range keys {
+		if !resolvesToSafe(w, id, kn) {
+			safeKeys = append(safeKeys, kn)
+		}
+	}
+	keys = safeKeys
 	return world.Action{Kind: world.KRawPacket, Chain: id, Pkt: &world.PacketSpec{AddrKey: rapid.SampledFrom(keys).Draw(t, "rawkey"), Power: int64(rapid.IntRange(0, 50).Draw(t, "rawpower")), VscID: vsc, Infraction: inf}}
 }
 
